@@ -226,16 +226,19 @@ Definition like_mismatches (cs : list c06lcase) : list N := failing like_check c
    for a type, the head of the resolved type of every member in the order of declaration. *)
 Record c06acase := mkACase { ac_decls : list (nat * ResolveAlias.aexp); ac_class : nat; ac_heads : list nat }.
 
+(* the wording of ILLEGAL_ARGUMENT_TYPE / ILLEGAL_OBJECT_INHERITANCE with a type is part of the model (depth pass 7):
+   the class must be the predicted one; 41 / 21 = the model does not predict which of the two (printer depth bound, two
+   Tuple / two Variant / two Object types under commonType) *)
 Definition alias_check (c : c06acase) : bool :=
   let r := ResolveAlias.resolve_all (ac_decls c) in
-  (Nat.eqb (ac_class c) (ResolveAlias.rres_class r)
-   (* the creator of TypeReference words PCORE_ILLEGAL_ARGUMENT_TYPE with the printed type of the argument
-      (types.go:212 px.DetailedValueType(actual).String()); the printer may ask an alias that has no resolved type
-      yet, which raises PCORE_UNRESOLVED_TYPE instead: the printer is not part of this model *)
-   || (Nat.eqb (ResolveAlias.rres_class r) 4 && Nat.eqb (ac_class c) 1)
-   (* likewise PCORE_ILLEGAL_OBJECT_INHERITANCE is worded with the printed type of the illegal parent
-      (objecttype.go illegalParent: tp.PType().String()) *)
-   || (Nat.eqb (ResolveAlias.rres_class r) 2 && Nat.eqb (ac_class c) 1)) &&
+  let m := ResolveAlias.rres_class r in
+  (Nat.eqb (ac_class c) m
+   || (Nat.eqb m 41 && (Nat.eqb (ac_class c) 4 || Nat.eqb (ac_class c) 1))
+   || (Nat.eqb m 21 && (Nat.eqb (ac_class c) 2 || Nat.eqb (ac_class c) 1))) &&
   list_eqb Nat.eqb (ac_heads c) (ResolveAlias.resolved_heads r).
+
+(* how many cases the model leaves open (scratch statistics) *)
+Definition alias_unpredicted (cs : list c06acase) : nat :=
+  length (filter (fun c => let m := ResolveAlias.rres_class (ResolveAlias.resolve_all (ac_decls c)) in Nat.eqb m 41 || Nat.eqb m 21) cs).
 
 Definition alias_mismatches (cs : list c06acase) : list N := failing alias_check cs.
